@@ -490,8 +490,10 @@ func (e *rereadEngine) run(payload string) string {
 }
 
 // roundTrip: READ(PRINT(v)) compared with v by the harness's own structural comparison
-func roundTrip(v MalType) string {
-	text := lisp.PRINT(v)
+func roundTrip(v MalType) string { return roundTripText(v, lisp.PRINT(v)) }
+
+// roundTripText: the same on a text printed earlier (two PRINT calls may order map entries differently)
+func roundTripText(v MalType, text string) string {
 	v2, err := lisp.READ(text, nil, nil)
 	if err != nil {
 		return "rt=err:" + errClass(err)
